@@ -67,7 +67,12 @@ def install_kernel_abstraction(I, ctx):
         return record(args_of(args[0], args[1]))[0]
 
     def is_rejected(I_, ctx_, callee, args, crate):
-        return record(args_of(args[0], args[1]))[1]
+        a = args_of(args[0], args[1])
+        # the real function computes `total_weight - weight_needed` for AbsoluteCount: it panics when the configured count exceeds
+        # the proposal's total weight (possible for a flex multisig whose group shrank after instantiation)
+        if a[5] == 0 and not ctx_.branch(a[6] <= a[4], "count<=total"):
+            raise Panic("is_rejected: total_weight - weight_needed underflow")
+        return record(a)[1]
     ctx.stubs["is_passed"] = is_passed
     ctx.stubs["is_rejected"] = is_rejected
     ctx.model_refiners = [kernel_reference]
